@@ -61,6 +61,22 @@ def body(ctx):
         spec = dict(seed=ctx.seed + a, maxdata=4096, rid='plus', frag=('whole', 'random')[a % 2], ops=[dict(api='stat', path='/kw', st=st), dict(api='list', path='/kwd', entries=ents, cuts='random')])
         for mode in ('sync', 'async'):
             runs.append((mode, spec, scen.run(spec, mode), None))
+    # a directory with more than a thousand entries
+    ents = [[(b'f%04d' % j).hex(), 33188, j, 1000 + j] for j in range(1500)]
+    spec = dict(seed=ctx.seed + 77, maxdata=65536, rid='plus', frag='whole', ops=[dict(api='list', path='/big', entries=ents, cuts='whole')])
+    for mode in ('sync', 'async'):
+        runs.append((mode, spec, scen.run(spec, mode), None))
+    # a listing that takes longer than read_timeout_s as a whole although every packet is prompt, with a packet of another stream (a
+    # streaming generator the caller keeps open) arriving in the middle of it
+    for k3, (tick, rt) in enumerate([(0.05, 1.0), (0.2, 0.5)]):
+        ents = [[(b'e%03d' % j).hex(), 1, 2, 3] for j in range(120)]
+        spec = dict(seed=ctx.seed + 78 + k3, maxdata=4096, rid='plus', frag='whole', tick=tick,
+                    ops=[dict(api='streaming_shell', decode=False, cmd='logcat', chunks=[b'l1;'.hex(), b'l2;'.hex(), b'l3;'.hex()], take=1, hold='log', read_timeout_s=rt),
+                         dict(api='list', path='/slow', entries=ents, cuts=[400 * j_ for j_ in range(1, 12)], read_timeout_s=rt),
+                         dict(api='stat', path='/slowstat', st=[1, 2, 3], read_timeout_s=rt),
+                         dict(api='resume', gen='log')])
+        for mode in ('sync', 'async'):
+            runs.append((mode, spec, scen.run(spec, mode), None))
     # an operation aborted in the middle of its reply (the device falls silent), then the same kind of operation again on the same connection
     for k2, frag in enumerate(['whole', 'random', 'bytes1']):
         for mode in ('sync', 'async'):
